@@ -98,6 +98,20 @@ impl<'a> Ev<'a> {
         }
         // ---------------------------------------------------------------- Option
         const OPT: &[&str] = &["map", "and_then", "filter", "map_or", "map_or_else", "unwrap_or", "unwrap_or_else", "unwrap_or_default", "or", "or_else", "ok_or", "ok_or_else", "is_some_and", "is_none_or", "zip", "iter", "into_iter", "transpose", "flatten", "xor", "is_some", "is_none", "as_ref", "as_mut", "as_deref", "cloned", "copied", "take"];
+        // an opaque value (result of an external call such as `path.get_ident()`) on which an Option-only method is called
+        // is an Option: decided on the same atom a `Some(..)` pattern would use
+        if matches!(name, "is_some_and" | "is_none_or" | "map_or" | "map_or_else") {
+            if let Val::Opaque { .. } = rv {
+                let nm = rv.short();
+                let nm = if nm.len() > 60 { format!("{}…", &nm.chars().take(60).collect::<String>()) } else { nm };
+                let mut r: Outs = Vec::new();
+                for (s, b) in self.decide(st.clone(), &F::A(format!("{nm} is Some"))) {
+                    let as_opt = if b { Val::some(Val::opaque("Some.0", vec![rv.clone()])) } else { Val::none() };
+                    r.extend(self.lib_method(s, &as_opt, name, args, sp)?);
+                }
+                return Some(r);
+            }
+        }
         if OPT.contains(&name) {
             if matches!(name, "as_ref" | "as_mut" | "as_deref" | "cloned" | "copied") && matches!(rv, Val::Sym { .. } | Val::Enum { .. }) && self.opt_forks(St::new(), rv).is_some() { return Some(vec![(st, Flow::Val(rv.clone()))]); }
             if name == "take" { return None; }
